@@ -236,6 +236,9 @@ func registerStrings(p *Program) {
 	always("internal/abi.NoEscape", func(e *Exec, a []Value) Value { return a[0] })
 	always("(*strings.Builder).copyCheck", func(e *Exec, a []Value) Value { return nil })
 	always("os.Getenv", func(e *Exec, a []Value) Value { return Str{} })
+	always("os.Getwd", func(e *Exec, a []Value) Value { return Tuple{Str{S: "/cwd/w"}, Iface{}} })
+	always("github.com/go-openapi/spec.MustLoadSwagger20Schema", func(e *Exec, a []Value) Value { return e.lazyMeta("swagger20") })
+	always("github.com/go-openapi/spec.MustLoadJSONSchemaDraft04", func(e *Exec, a []Value) Value { return e.lazyMeta("draft04") })
 	always("os.IsPathSeparator", func(e *Exec, a []Value) Value { return sym.Eq(a[0].(*T), sym.BVC(8, '/')) })
 
 	// fmt: messages are rendered when concrete; symbolic pieces print as placeholders
@@ -284,6 +287,22 @@ func registerStrings(p *Program) {
 		return Iface{T: types.NewPointer(et), V: Ptr{Obj: o}}
 	})
 	always("errors.Is", func(e *Exec, a []Value) Value { return e.errorsIs(a[0].(Iface), a[1].(Iface)) })
+}
+
+// lazyMeta: the built-in meta-schemas are not decoded (1 600 lines of JSON nobody looks at in
+// most properties); a placeholder schema stands for them unless real_meta is set.
+func (e *Exec) lazyMeta(which string) Value {
+	if e.Params["real_meta"] == 1 {
+		name := "Swagger20Schema"
+		if which == "draft04" {
+			name = "JSONSchemaDraft04"
+		}
+		res := e.callFnBody(nil, e.P.Pkg.Func(name), nil, nil).(Tuple)
+		return res[0]
+	}
+	st := e.P.Pkg.Type("Schema").Type()
+	p := e.alloc(st, "meta-schema:"+which)
+	return p
 }
 
 func (e *Exec) errorsIs(err, target Iface) Value {
